@@ -218,6 +218,8 @@ def copy_visit_rule(ctx, R2, mod=None, M=None, only=None):
     M = M or Matrix(mod)
     if only == 'visit':
         R_all, R2 = R2, _Filter(R2, '.visit')
+    elif only == 'copy':
+        R_all, R2 = R2, _Filter(R2, '.copy')
     # flags stored on freshly constructed nodes outside expression.py (the evaluator marks unknown memory cells as terminal)
     dynamic_flags = {}
     for mname in ('eval_abs', 'expr_helper', 'emul_helper'):
